@@ -74,7 +74,16 @@ package loop
 // inspected (before the SCEV machinery runs, which the later returns follow).
 //@   ghost stays bool
 //@   call deriveTripCount$1 update stays = loop.Blocks[exitBlock.Succs[0]]
-//@   return-ensures [C12.polarity] iv != nil && !isNEQ && len(exitBlock.Succs) == 2 && binOp.X != binOp.Y ==> isUpCounting == (contLess(binOp.Op, stays) == (limit == binOp.Y))
+// C17: a limit is evaluated only after it has been found loop-invariant (the invariance test stops at the first
+// value defined inside the loop; the evaluator walks every path of a shared expression).
+//@   ghost limitInv bool
+//@   init limitInv = false
+//@   call IsLoopInvariant update limitInv = result
+//@   call EvaluateAt assert [C17.eval] limitInv
+//@   return-ensures [C12.polarity] [C02.polarity] iv != nil && !isNEQ && len(exitBlock.Succs) == 2 && binOp.X != binOp.Y ==> isUpCounting == (contLess(binOp.Op, stays) == (limit == binOp.Y))
+// and the bound is inclusive exactly when the comparison under which the loop continues is: "<=" / ">=" as written
+// when the true branch stays in the loop, the negation of "<" / ">" (i.e. ">=" / "<=") when the true branch leaves
+//@   return-ensures [C12.polarity] [C02.polarity] iv != nil && !isNEQ && len(exitBlock.Succs) == 2 && (binOp.Op == token.LSS || binOp.Op == token.LEQ || binOp.Op == token.GTR || binOp.Op == token.GEQ) ==> isInclusive == ite(stays, binOp.Op == token.LEQ || binOp.Op == token.GEQ, binOp.Op == token.LSS || binOp.Op == token.GTR)
 // The count itself: for a continue-comparison "iv < limit" with step s the body runs ceil((limit - start) / s) times,
 // built as max(0, ((limit - start) + s - 1) / s) (inclusive bound: max(0, ((limit - start) + s) / s)); the quotient
 // of the SCEV language truncates toward zero, so other textbook forms of the ceiling are wrong for non-positive
@@ -94,4 +103,8 @@ package loop
 //@   requires c != nil
 //@   ensures [C12.const] c.Value == nil ==> constN(result, 0)
 //@   ensures [C12.const] c.Value != nil && hasType(result, "*SCEVConstant") ==> dyn(result, "*SCEVConstant").Value == purecall("math/big.NewInt", constIntOf(c.Value))
+
+// ---- C12: an operation on two summaries is recorded as written: operator, left operand, right operand
+//@ func foldSCEV
+//@   ensures [C12.fold] gen(result, op, left, right)
 
